@@ -1567,9 +1567,11 @@ impl LanceNamespace for ManifestNamespace {
         let (namespace, table_name) = Self::split_object_id(table_id);
         let object_id = Self::build_object_id(&namespace, &table_name);
 
-        // Check if table already exists in manifest
-        let existing = self.query_manifest_for_table(&object_id).await?;
-        if existing.is_some() {
+        // Check if an object (table or namespace) with this id already exists in manifest.
+        // Object ids are unique across types: checking only for a table would let the call go on,
+        // write the .lance-reserved file and then fail on the manifest insert, leaving the
+        // file behind (and, with directory listing enabled, a visible table).
+        if self.manifest_contains_object(&object_id).await? {
             return Err(Error::Namespace {
                 source: format!("Table '{}' already exists", table_name).into(),
                 location: location!(),
